@@ -106,6 +106,12 @@ def _flatten(shape, v) -> list:
     raise Unsupported("bad element shape")
 
 
+def _is_int_elem(shape):
+    from .contract import Int
+
+    return isinstance(shape, Int)
+
+
 class SymSeq(SymBase):
     __slots__ = ("kind", "elem", "n", "arrs", "input_name")
 
@@ -118,6 +124,10 @@ class SymSeq(SymBase):
 
     @property
     def __vc_types__(self):
+        if self.kind == "array":
+            import numpy
+
+            return (numpy.ndarray,)
         return (list,) if self.kind == "list" else (tuple,)
 
     # -- construction -----------------------------------------------------------------------
@@ -239,7 +249,64 @@ class SymSeq(SymBase):
             return s
         return None
 
+    # -- numpy 1-d arrays (kind "array"): arithmetic is elementwise, with a scalar or an array of the same length
+    def _elementwise(self, o, f):
+        from .contract import Int, Real
+
+        if not isinstance(self.elem, (Int, Real)):
+            raise Unsupported("elementwise arithmetic on a non-numeric array")
+        j = z3.Int("j!ew")
+        a = self.arrs[0]
+        if isinstance(o, SymSeq):
+            if o.kind != "array" or not isinstance(o.elem, (Int, Real)):
+                raise Unsupported("array arithmetic with a non-array sequence")
+            ctx().check(SymBool(self.n == o.n), "array-operands-have-the-same-length", kind="library-pre")
+            bt = z3.Select(o.arrs[0], j)
+            real = isinstance(self.elem, Real) or isinstance(o.elem, Real)
+        else:
+            tk = term_of(o)
+            if tk is None or tk[1] not in ("int", "real"):
+                raise Unsupported(f"array arithmetic with {type(o).__name__}")
+            bt = tk[0]
+            real = isinstance(self.elem, Real) or tk[1] == "real"
+        at = z3.Select(a, j)
+        if real:
+            at = sym.as_real(at, "real" if isinstance(self.elem, Real) else "int")
+            bt = z3.ToReal(bt) if bt.sort() == z3.IntSort() else bt
+        return SymSeq("array", Real() if real else Int(), self.n, [z3.Lambda([j], f(at, bt))])
+
+    def __sub__(self, o):
+        if self.kind != "array":
+            return NotImplemented
+        return self._elementwise(o, lambda x, y: x - y)
+
+    def __rsub__(self, o):
+        if self.kind != "array":
+            return NotImplemented
+        return self._elementwise(o, lambda x, y: y - x)
+
+    def __mul__(self, o):
+        if self.kind != "array":
+            raise Unsupported("sequence repetition of a symbolic-length sequence")
+        return self._elementwise(o, lambda x, y: x * y)
+
+    __rmul__ = __mul__
+
+    def __neg__(self):
+        if self.kind != "array":
+            raise TypeError("bad operand type for unary -")
+        return self._elementwise(0, lambda x, y: y - x)
+
+    def astype(self, dtype, *a, **k):
+        if self.kind != "array":
+            raise AttributeError("astype")
+        if str(dtype) in ("int32", "int64", "int") and _is_int_elem(self.elem):
+            return self
+        raise Unsupported("astype of a symbolic array to " + str(dtype))
+
     def __add__(self, o):
+        if self.kind == "array":
+            return self._elementwise(o, lambda x, y: x + y)
         o2 = self._coerce_other(o)
         if o2 is None:
             return NotImplemented
@@ -248,12 +315,16 @@ class SymSeq(SymBase):
         return SymSeq(self.kind, self.elem, self.n + o2.n, arrs)
 
     def __radd__(self, o):
+        if self.kind == "array":
+            return self._elementwise(o, lambda x, y: y + x)
         o2 = self._coerce_other(o)
         if o2 is None:
             return NotImplemented
         return o2.__add__(self)
 
     def __iadd__(self, o):
+        if self.kind == "array":
+            raise Unsupported("in-place arithmetic on a symbolic array")
         r = self.__add__(o)
         if r is NotImplemented:
             return r
@@ -292,7 +363,7 @@ class SymSeq(SymBase):
         j = z3.Int(c.fresh_name("j"))
         c.assume(z3.Implies(self.n > 0, z3.Select(p, 0) == z3.Select(a, 0)), fact=True)
         c.assume(z3.ForAll([j], z3.Implies(z3.And(j >= 1, j < self.n), z3.Select(p, j) == z3.Select(p, j - 1) + z3.Select(a, j))), fact=True)
-        return SymSeq(self.kind, self.elem, self.n, [p])
+        return SymSeq("array", self.elem, self.n, [p])
 
     def elementwise_differs(self, o):
         """exists j: self[j] != o[j] (same length assumed by the caller)"""
@@ -333,6 +404,8 @@ class SymSeq(SymBase):
         items = [to_src(self.get(k), model, c) for k in range(n)]
         if self.kind == "tuple":
             return "(" + ", ".join(items) + ("," if n == 1 else "") + ")"
+        if self.kind == "array":
+            return "np.asarray([" + ", ".join(items) + "], dtype=" + ("'int32'" if _is_int_elem(self.elem) else "'float64'") + ")"
         return "[" + ", ".join(items) + "]"
 
 
